@@ -20,7 +20,8 @@ static unsigned char g_msg[BL]; static ares_buf_t g_buf;
 /* ---- observer log ---- */
 #define LOG 24
 static int g_n; static int g_kind[LOG]; static ares_dns_rr_key_t g_key[LOG]; static unsigned long g_val[LOG]; static const void *g_ptr[LOG]; static size_t g_len[LOG]; static unsigned short g_opt[LOG];
-enum { K_U8 = 1, K_U16, K_U32, K_A4, K_A6, K_STR, K_BIN, K_ABIN, K_OPT };
+enum { K_U8 = 1, K_U16, K_U32, K_A4, K_A6, K_STR, K_BIN, K_ABIN, K_OPT, K_CSTR /* layout only: a <character-string>, logged as K_STR */ };
+static size_t g_slen[LOG]; static unsigned char g_sval[LOG][4]; /* what a string setter was given: length (capped at 15) and first bytes */
 static ares_status_t lg(int kind, ares_dns_rr_key_t key, unsigned long v, const void *p, size_t l, unsigned short o)
 { if (nondet_bool()) return ARES_ENOMEM; if (g_n < LOG) { g_kind[g_n] = kind; g_key[g_n] = key; g_val[g_n] = v; g_ptr[g_n] = p; g_len[g_n] = l; g_opt[g_n] = o; } g_n++; return ARES_SUCCESS; }
 /* ASSUMED: record setters as observers (they may fail for lack of memory; *_own setters take the value on success only) */
@@ -31,7 +32,14 @@ ares_status_t ares_dns_rr_set_u32(ares_dns_rr_t *rr, ares_dns_rr_key_t key, unsi
 static unsigned char g_a4[4], g_a6[16];
 ares_status_t ares_dns_rr_set_addr(ares_dns_rr_t *rr, ares_dns_rr_key_t key, const struct in_addr *a) { memcpy(g_a4, a, 4); return lg(K_A4, key, 0, NULL, 4, 0); }
 ares_status_t ares_dns_rr_set_addr6(ares_dns_rr_t *rr, ares_dns_rr_key_t key, const struct ares_in6_addr *a) { memcpy(g_a6, a, 16); return lg(K_A6, key, 0, NULL, 16, 0); }
-ares_status_t ares_dns_rr_set_str_own(ares_dns_rr_t *rr, ares_dns_rr_key_t key, char *v) { ares_status_t s = lg(K_STR, key, 0, v, 0, 0); if (s == ARES_SUCCESS) { g_owned++; free(v); } return s; }
+ares_status_t ares_dns_rr_set_str_own(ares_dns_rr_t *rr, ares_dns_rr_key_t key, char *v)
+{
+  int at = g_n; ares_status_t s = lg(K_STR, key, 0, v, 0, 0);
+#ifdef CAPTURE_STR
+  if (s == ARES_SUCCESS && at < LOG) { size_t n = 0; while (n < 15 && v[n] != 0) n++; g_slen[at] = n; for (size_t j = 0; j < 4; j++) g_sval[at][j] = j < n ? (unsigned char)v[j] : 0; }
+#endif
+  if (s == ARES_SUCCESS) { g_owned++; free(v); } return s;
+}
 static unsigned char g_bin[8]; static size_t g_binlen;
 ares_status_t ares_dns_rr_set_bin_own(ares_dns_rr_t *rr, ares_dns_rr_key_t key, unsigned char *v, size_t l) { ares_status_t s = lg(K_BIN, key, 0, v, l, 0); if (s == ARES_SUCCESS) { g_binlen = l; for (size_t i = 0; i < 8; i++) if (i < l) g_bin[i] = v[i]; g_owned++; free(v); } return s; }
 static unsigned char g_optval[2][4];
@@ -49,13 +57,19 @@ ares_status_t ares_dns_name_parse(ares_buf_t *buf, char **name, ares_bool_t is_h
   if (nondet_bool() || ares_buf_len(buf) < l) return ARES_EBADNAME;
   if (g_names < 3) g_name_at[g_names] = buf->offset;
   g_names++; buf->offset += l;
-  if (name != NULL) { *name = malloc(1); if (*name == NULL) { return ARES_ENOMEM; } }
+  if (name != NULL) { *name = malloc(1); if (*name == NULL) { return ARES_ENOMEM; } (*name)[0] = 0; }
   return ARES_SUCCESS;
 }
 static ares_dns_record_t g_rec; static ares_dns_rr_t g_rr; static int g_added; static ares_dns_rec_type_t g_add_type; static ares_dns_class_t g_add_class; static unsigned int g_add_ttl; static ares_dns_section_t g_add_sect;
 ares_status_t ares_dns_record_rr_add(ares_dns_rr_t **rr_out, ares_dns_record_t *dnsrec, ares_dns_section_t sect, const char *name, ares_dns_rec_type_t type, ares_dns_class_t rclass, unsigned int ttl)
 { if (nondet_bool()) return ARES_ENOMEM; g_added++; g_add_type = type; g_add_class = rclass; g_add_ttl = ttl; g_add_sect = sect; g_rr.parent = &g_rec; g_rr.type = type; *rr_out = &g_rr; return ARES_SUCCESS; }
+#ifdef CAPTURE_STR
+/* ASSUMED: ares_str_isprint() = every byte satisfies the real ares_isprint() macro (src/lib/str/ares_str.c, a plain loop) */
+ares_bool_t ares_str_isprint(const char *str, size_t len) { if (str == NULL && len != 0) return ARES_FALSE; for (size_t i = 0; i < len; i++) if (!ares_isprint(str[i])) return ARES_FALSE; return ARES_TRUE; }
+size_t ares_strlen(const char *s) { size_t n = 0; if (s == NULL) return 0; while (n < 15 && s[n] != 0) n++; return n; }
+#else
 size_t ares_strlen(const char *s) { return nondet_size() % 4; }
+#endif
 
 static void mk(void)
 {
@@ -74,6 +88,10 @@ typedef struct { int kind; ares_dns_rr_key_t key; } fld_t;
 static const fld_t L_A[] = T({K_A4, ARES_RR_A_ADDR}), L_AAAA[] = T({K_A6, ARES_RR_AAAA_ADDR}), L_NS[] = T({K_STR, ARES_RR_NS_NSDNAME}),
   L_CNAME[] = T({K_STR, ARES_RR_CNAME_CNAME}), L_PTR[] = T({K_STR, ARES_RR_PTR_DNAME}), L_MX[] = T({K_U16, ARES_RR_MX_PREFERENCE}, {K_STR, ARES_RR_MX_EXCHANGE}),
   L_SRV[] = T({K_U16, ARES_RR_SRV_PRIORITY}, {K_U16, ARES_RR_SRV_WEIGHT}, {K_U16, ARES_RR_SRV_PORT}, {K_STR, ARES_RR_SRV_TARGET}),
+  L_SIG[] = T({K_U16, ARES_RR_SIG_TYPE_COVERED}, {K_U8, ARES_RR_SIG_ALGORITHM}, {K_U8, ARES_RR_SIG_LABELS}, {K_U32, ARES_RR_SIG_ORIGINAL_TTL}, {K_U32, ARES_RR_SIG_EXPIRATION}, {K_U32, ARES_RR_SIG_INCEPTION}, {K_U16, ARES_RR_SIG_KEY_TAG}, {K_STR, ARES_RR_SIG_SIGNERS_NAME}),
+  L_URI[] = T({K_U16, ARES_RR_URI_PRIORITY}, {K_U16, ARES_RR_URI_WEIGHT}), L_CAA[] = T({K_U8, ARES_RR_CAA_CRITICAL}, {K_CSTR, ARES_RR_CAA_TAG}),
+  L_HINFO[] = T({K_CSTR, ARES_RR_HINFO_CPU}, {K_CSTR, ARES_RR_HINFO_OS}),
+  L_NAPTR[] = T({K_U16, ARES_RR_NAPTR_ORDER}, {K_U16, ARES_RR_NAPTR_PREFERENCE}, {K_CSTR, ARES_RR_NAPTR_FLAGS}, {K_CSTR, ARES_RR_NAPTR_SERVICES}, {K_CSTR, ARES_RR_NAPTR_REGEXP}, {K_STR, ARES_RR_NAPTR_REPLACEMENT}),
   L_SOA[] = T({K_STR, ARES_RR_SOA_MNAME}, {K_STR, ARES_RR_SOA_RNAME}, {K_U32, ARES_RR_SOA_SERIAL}, {K_U32, ARES_RR_SOA_REFRESH}, {K_U32, ARES_RR_SOA_RETRY}, {K_U32, ARES_RR_SOA_EXPIRE}, {K_U32, ARES_RR_SOA_MINIMUM});
 #ifdef RR_HEADER
 /* ---- (a) the RR header and RDLENGTH reconciliation; the per-type decoder is a link-time stand-in that consumes a ghost
@@ -110,8 +128,11 @@ void h_parse_rdata(void)
   if (lay != NULL) {
     size_t o = r0; int nm = 0; int i;
     for (i = 0; i < 8 && lay[i].kind != 0; i++) {
-      __CPROVER_assert(i < g_n && g_kind[i] == lay[i].kind && g_key[i] == lay[i].key, "C04: RDATA fields are decoded in RFC order into the right keys");
+      __CPROVER_assert(i < g_n && g_kind[i] == (lay[i].kind == K_CSTR ? K_STR : lay[i].kind) && g_key[i] == lay[i].key, "C04: RDATA fields are decoded in RFC order into the right keys");
       switch (lay[i].kind) {
+        case K_U8: __CPROVER_assert(g_val[i] == g_msg[o], "C04: 8-bit RDATA field equals the wire byte"); o += 1; break;
+        case K_CSTR: { size_t L = g_msg[o]; __CPROVER_assert(g_slen[i] == L, "C04: a character-string has the length its length octet says");
+                       for (size_t j = 0; j < 4; j++) if (j < L) __CPROVER_assert(g_sval[i][j] == g_msg[o + 1 + j], "C04: character-string bytes as on the wire"); o += 1 + L; break; }
         case K_U16: __CPROVER_assert(g_val[i] == B16(o), "C04: 16-bit RDATA field equals the wire bytes (big endian)"); o += 2; break;
         case K_U32: __CPROVER_assert(g_val[i] == B32(o), "C04: 32-bit RDATA field equals the wire bytes (big endian)"); o += 4; break;
         case K_A4: __CPROVER_assert(memcmp(g_a4, g_msg + o, 4) == 0, "C04: IPv4 address bytes as on the wire"); o += 4; break;
@@ -120,7 +141,16 @@ void h_parse_rdata(void)
         default: break;
       }
     }
+#if defined(REST_BIN_KEY)
+    /* the rest of the RDATA is one opaque field (RFC 2535 signature, RFC 8659 value) */
+    __CPROVER_assert(g_n == i + 1 && g_kind[i] == K_BIN && g_key[i] == REST_BIN_KEY && o < r0 + rdlen && g_len[i] == r0 + rdlen - o && g_buf.offset == r0 + rdlen, "C04: the remaining RDATA is reported as one binary field of exactly that length");
+    for (size_t j = 0; j < 8; j++) if (j < g_len[i]) __CPROVER_assert(g_bin[j] == g_msg[o + j], "C04: remaining RDATA bytes as on the wire");
+#elif defined(REST_STR_KEY)
+    __CPROVER_assert(g_n == i + 1 && g_kind[i] == K_STR && g_key[i] == REST_STR_KEY && o < r0 + rdlen && g_buf.offset == r0 + rdlen, "C04: the remaining RDATA is reported as one text field");
+    { size_t L = r0 + rdlen - o; _Bool nul = 0; for (size_t j = 0; j < 4; j++) if (j < L) { if (g_msg[o + j] == 0) nul = 1; if (!nul) __CPROVER_assert(g_sval[i][j] == g_msg[o + j], "C04: text bytes as on the wire"); } }
+#else
     __CPROVER_assert(g_n == i && g_buf.offset == o, "C04: nothing else is reported or consumed for this record");
+#endif
   }
 #ifdef CHECK_RAW
   __CPROVER_assert(g_n >= 1 && g_kind[0] == K_U16 && g_key[0] == ARES_RR_RAW_RR_TYPE && g_val[0] == raw_type, "C04: an undecoded record reports its wire TYPE, also when its RDATA is empty");
